@@ -136,6 +136,9 @@ func TestC11(t *testing.T) {
 							continue
 						}
 						want := Perms(ty)
+						if rec.WantSample() && ty != "" {
+							rec.Sample(map[string]interface{}{"licence": lic, "parent": p.name, "type": ty, "ttl": ttl, "channel": cc.ch, "returned_permissions": permString(k.Permissions()), "returned_expiry": k.Expires().Unix()})
+						}
 						c11CheckFields(rec, fail, w, k, want, p.contract, p.sig, p.master, ttl, t0, t1)
 						if rch, _ := rep.Fields["channel"].(string); rch != cc.ch {
 							fail("returned-channel", fmt.Sprintf("response channel %q, requested %q", rch, cc.ch), w)
